@@ -66,8 +66,8 @@ def oracle(c):
             fails.append(Failure("undefined_component", f"tract {i} trs {t.trs!r} reports an undefined component", **ctx))
         if t.orig_desc != text:
             fails.append(Failure("orig_desc", f"tract {i}: orig_desc {t.orig_desc!r} is not the complete original text {text!r}", **ctx))
-        if t.source != c.get("source"):
-            fails.append(Failure("source", f"tract {i}: source {t.source!r} != parent's {c.get('source')!r}", **ctx))
+        if t.source != parsing.source_of(c) or type(t.source) is not type(parsing.source_of(c)):
+            fails.append(Failure("source", f"tract {i}: source {t.source!r} != parent's {parsing.source_of(c)!r}", **ctx))
         if t.orig_index != i:
             fails.append(Failure("orig_index", f"tract at position {i} has orig_index {t.orig_index}", **ctx))
     # a tract whose Twp/Rge/Sec is corrected afterwards decomposes the new string (every attribute, also one that was read before)
